@@ -1,9 +1,26 @@
 import TunnoxModel.Spec.C20
+import TunnoxModel.Proofs.C20
+/-!
+# C20 — SOCKS5 requests and UDP headers are parsed exactly as RFC 1928 defines
+
+Property theorems only (helper lemmas live in `Proofs/C20.lean`).
+-/
 namespace Tunnox.C20
 open Gen
 
-theorem C20_skel_listener : Skel.Listener_Handshake =
-    ["io.ReadFull", "io.ReadFull", "conn.Write", "io.ReadFull", "l.SendError", "l.SendError", "io.ReadFull",
-     "io.ReadFull", "io.ReadFull", "io.ReadFull", "l.SendError", "io.ReadFull"] := by decide
+/-- **Listener, every byte string, every chunking.**  Whatever bytes the application sends and
+however the transport cuts them (and whether the stream then ends in EOF or an error),
+`Listener.Handshake` returns exactly the command, address text and port RFC 1928 assigns to the
+stream, having written only the method selection and consumed exactly the negotiation; or it fails,
+having written the reply the RFC prescribes for that malformation (`05 FF`, `REP=07`, `REP=08`, a
+failure reply or nothing) and without consuming more than the offending message part.  Truncation at
+any offset is a failure (the parser is total: this is a statement about every list of chunks). -/
+theorem C20_listener (c : IPText) (chunks : List Bytes) (tail : Tail) :
+    holdsHs c chunks.flatten
+      (hsObs chunks.flatten (handshake c ⟨chunks, tail⟩).1 (handshake c ⟨chunks, tail⟩).2.flat.length) = true := by
+  have h := P.runSrc_flat (handshakeP c) ⟨chunks, tail⟩
+  unfold handshake
+  rw [h.1, h.2]
+  exact handshake_flat_holds c chunks.flatten
 
 end Tunnox.C20
